@@ -26,6 +26,24 @@ def type_extent(t):
     return None
 
 
+def decl_extent(facts, fn, d):
+    """extent of a declared object: from its type text, or - for `auto x = std::make_unique<T[]>(n)` - from the allocated type
+    (a local alias `using T = std::array<V, N>` of the function is resolved)"""
+    te = type_extent(d.get("t", ""))
+    if te is not None or not kids(d):
+        return te
+    it = facts.ntext(kids(d)[0])
+    m = re.search(r"make_unique<(.+)\[\]>\(", it)
+    if not m:
+        return None
+    ty = m.group(1)
+    if re.match(r"^\w+$", ty):
+        al = re.search(r"using%s=([^;]+);" % re.escape(ty), facts.ntext(tbf.body(fn)))
+        if al:
+            ty = al.group(1)
+    return type_extent("std::unique_ptr<%s[]>" % ty)
+
+
 class LambdaModel:
     def __init__(self, facts, fn, lam):
         self.facts = facts
@@ -108,7 +126,7 @@ def check_function(facts, fn, res, rule, nbparticles_field="nbParticles"):
                     if obj.get("k") != "DeclRefExpr":
                         break
                     d = decls.get(obj["did"])
-                    te = type_extent(d["t"]) if d else None
+                    te = decl_extent(facts, fn, d) if d else None
                     if te is None:
                         break
                     sides.append({"obj": obj, "decl": d, "extent": te[0], "elem": te[1], "dom": (lm.domain(outer_idx), lm.domain(inner_idx)),
@@ -166,7 +184,7 @@ def check_function(facts, fn, res, rule, nbparticles_field="nbParticles"):
             # allocation extent of the global objects captured by the lambda
     # allocation sizes
     for d in decls.values():
-        te = type_extent(d.get("t", ""))
+        te = decl_extent(facts, fn, d) if d.get("k") == "VarDecl" else type_extent(d.get("t", ""))
         if te is None or te[0][0][0] != "orig" or d.get("k") != "VarDecl":
             continue
         ok = False
